@@ -202,6 +202,7 @@ func check(c Case, ev *evid.Collector) *evid.Violation {
 	if c.SrcForm != "" {
 		classes = append(classes, "src-form:"+c.SrcForm)
 	}
+	classes = append(classes, c.ClientClasses()...)
 	if g.Nodes[g.Root].Digest[:6] == "sha512" {
 		classes = append(classes, "root-digest:sha512")
 	}
